@@ -363,6 +363,7 @@ func (m *Machine) resetPath() {
 	m.timeVarSeq = 0
 	m.lastNow = nil
 	m.preemptions = 0
+	m.selChoices = 0
 	m.epoch++
 }
 
@@ -671,7 +672,7 @@ func (m *Machine) decideFree(site string, n int) int {
 
 func (m *Machine) recordViolation(v *Violation) {
 	ps := m.ps
-	v.Sched = m.preemptions > 0
+	v.Sched = m.preemptions > 0 || m.selChoices > 0
 	v.Inputs = m.concretizeInputs(ps.inputs, ps.ev)
 	v.Trace = append([]int32{}, ps.trace...)
 	for _, o := range ps.obs {
@@ -819,6 +820,9 @@ func (m *Machine) renderVal(v Value, t types.Type, ev *term.Evaluator) string {
 		}
 		return fmt.Sprintf("%q", string(b))
 	case TimeV:
+		if v.Pre {
+			return "t:zero+d"
+		}
 		if v.Zero {
 			return "t:zero"
 		}
